@@ -362,7 +362,7 @@ func genCase(t *rapid.T, fn string) *Case {
 		}
 		c.U, c.Note = []uint64{slot, gen, sps}, cls(n1, n2)
 	case "EpochStartSlot":
-		spe := small("spe", 1, 2, 4, 8, 32, 33)
+		spe := small("spe", 1, 2, 3, 4, 6, 8, 12, 32, 33)
 		e, n1 := genU64(t, "e")
 		if rapid.IntRange(0, 2).Draw(t, "edge") > 0 {
 			d := rapid.Int64Range(-2, 2).Draw(t, "d")
@@ -402,7 +402,17 @@ func genCase(t *rapid.T, fn string) *Case {
 		slot, n1 := genU64(t, "slot")
 		span := small("span", 0, 1, 2, 32, 64)
 		var minS, maxS uint64
-		switch rapid.IntRange(0, 3).Draw(t, "win") {
+		switch rapid.IntRange(0, 4).Draw(t, "win") {
+		case 4:
+			// the clock is within the disparity of the start of slot number `span` (the first moment at which
+			// min - span stops being negative): min in {span-2 .. span+1}, slots from 0 up to just past max
+			if span == 0 {
+				span = 32
+			}
+			minS = span - 2 + rapid.Uint64Range(0, 3).Draw(t, "near_span")
+			maxS = minS + rapid.Uint64Range(0, 1).Draw(t, "w")
+			slot = rapid.Uint64Range(0, maxS+2).Draw(t, "slot_small")
+			n1 = "clock≈start-of-slot-number-span"
 		case 0:
 			d := rapid.Int64Range(-2, 2).Draw(t, "dmin")
 			minS = slot + span + uint64(d)
